@@ -1210,6 +1210,9 @@ func runC03(c *core.Ctx) core.Meta {
 	checkFlatOffsetSigned(c, "R03.37", []string{emuPkg, cdna3Pkg}, 2)
 	checkModifierHelpers(c, alus)
 	checkSCCWidth(c, handlers)
+	checkBitSemantics(c, handlers)
+	checkLoadWidths(c, handlers)
+	checkWideMultiply(c, handlers)
 
 	// ---------------- R03.12 conditional moves select with the right polarity ----------------
 	st12 := c.Rule("R03.12", "v_cndmask_b32 writes S1 where the lane's bit of the condition mask (VCC, or the SGPR pair in SRC2) is set and S0 where it is clear; s_cselect writes S0 when SCC is 1 and S1 otherwise; s_cmov / s_cmovk write only when SCC is 1: decided by resolving the handler's test of the selector both ways and following the value that reaches the destination write", 6)
